@@ -281,6 +281,11 @@ fn get_match_statically_known(
     arg_provider.query_variable = &query_variable;
     arg_provider.query_function = &asm::resolver::get_statically_known_builtin_fn;
 
+    // Arguments are evaluated whether or not the production uses
+    // them (they can fail by themselves, e.g. `$` at an unaligned
+    // position), so all of them must be statically known as well
+    let mut all_args_known = true;
+
     for i in 0..rule.parameters.len()
     {
         let param = &rule.parameters[i];
@@ -322,6 +327,8 @@ fn get_match_statically_known(
             }
         };
 
+        all_args_known &= value_known;
+
         provider.locals.insert(
             param.name.clone(),
             expr::StaticallyKnownLocal {
@@ -330,7 +337,8 @@ fn get_match_statically_known(
             });
     }
 
-    rule.expr.is_value_statically_known(&provider)
+    all_args_known &&
+        rule.expr.is_value_statically_known(&provider)
 }
 
 
